@@ -6,6 +6,7 @@ same clause expressions concretely.  Syntax (contracts/*.py):
         requires(expr)
         raises(None)                         # no exception may escape
         raises("ValueError", when=expr)      # raised exactly when expr (and nothing is returned then)
+        raises("Exception", when=expr, may=True)   # may be raised when expr, never otherwise
         ensures(expr, name="closed-form")
         returns(expr)                        # result == expr, used definitionally at call sites
         canary(expr, name=...)               # a deliberately wrong post-condition; must be refuted
@@ -49,6 +50,8 @@ class Contract:
         self.may_modify = []
         self.globals_used = []    # (module-level name, type expr): read by the function, symbolic at entry
         self.delegates = None     # (callee qualname, {callee param: expr over own params})
+        self.validates = []       # [(callee qualname, {callee param: expr})]: the callee (an input check) is called, before anything
+                                  # can be returned, on the caller's OWN argument objects (not on converted copies)
         self.sets = []            # (attribute name, expr): self.<name> is <expr> after the call (constructors)
         self.raises = []          # Clause(kind raises, expr=when, name=exc)
         self.raises_none = False
@@ -106,6 +109,8 @@ class Contract:
                 self.globals_used.append((ast.literal_eval(call.args[0]), call.args[1]))
             elif fn == "delegates":
                 self.delegates = (ast.literal_eval(call.args[0]), kw)
+            elif fn == "validates":
+                self.validates.append((ast.literal_eval(call.args[0]), kw))
             elif fn == "sets":
                 self.sets.append((ast.literal_eval(call.args[0]), call.args[1], "assume_only" in kw))
             elif fn == "note":
@@ -180,7 +185,10 @@ class Contract:
             for cl in self.raises:
                 if cl.expr is None:
                     continue
-                conds.append((cl, interp.as_bool_term(self.eval_spec(interp, cl.expr, env), node)))
+                cnd = interp.as_bool_term(self.eval_spec(interp, cl.expr, env), node)
+                if "may" in cl.kw:      # raises(E, when=c, may=True): E MAY be raised when c (never otherwise)
+                    cnd = z3.And(cnd, ctx.fresh("may_raise", z3.BoolSort()))
+                conds.append((cl, cnd))
             if conds:
                 opts = [c for _, c in conds] + [z3.Not(z3.Or(*[c for _, c in conds]))]
                 ch = ctx.choose(opts, f"raises@{line}")
